@@ -17,7 +17,7 @@ import (
 )
 
 func init() {
-	register("C08", false, true, checkC08)
+	register("C08", true, true, checkC08)
 }
 
 func checkC08(w *World, tier string) *Report {
@@ -31,6 +31,17 @@ func checkC08(w *World, tier string) *Report {
 	addR83(w, r, "R8.3")
 	addR84(w, r, "R8.4")
 	addR85(w, r, "R8.5")
+	// shared (fourth batch of seeded changes): a node is one object — what add links under its parent and what the index
+	// table hands out is the same allocation (C07 R7.3/R7.5), so the outcome stored at exit is seen by every observer;
+	// and nothing between create and its caller rewrites the outcome after the node was closed (Create, Create2 and the
+	// create instructions are the reference's)
+	addR73(w, r, "R7.3")
+	addR75(w, r, "R7.5")
+	w.e1().cloneRule(r, "R8.6", pkVM, func(name string, pr *PairResult) bool {
+		return name == "(*EVM).Create" || name == "(*EVM).Create2" || name == "opCreate" || name == "opCreate2"
+	})
+	r.need("R8.6", 4)
+	r.Explanation += " R7.3/R7.5 (shared with C07) the node linked under its parent, the node the cursor points at and the node the index table hands out are one allocation, and exit stores the outcome into it; R8.6 Create, Create2, opCreate and opCreate2 are SSA clones of the reference (no result is rewritten after the node of the creation frame was closed)."
 	r.Assumptions = append(r.Assumptions, "the byte slice returned by a finished frame (EVMInterpreter.Run, precompiles, join points) is not written by anyone else afterwards", "hosts calling EVM.Call/Create directly do not reuse the input buffer while the call tree is alive (only opcode-originated calls are analysed)")
 	return r
 }
